@@ -113,8 +113,13 @@ def generate(rng, seed, part):
         else:
             ops.append({"op": "fill", "n": a, "i": rng.randrange(n) if n else 0})
     for _ in range(rng.randint(0, 2)):
-        ops.append({"op": "invalidate", "a": rng.randrange(nodes),
+        ops.append({"op": "invalidate", "a": rng.randrange(nodes), "out": nodes,
                     "how": rng.choice(["sub", "isub", "add_array", "mul_array", "bare", "div_array"])})
+        nodes += 1
+        # an invalid histogram combined with valid ones / filled further must stay invalid (never wrong numbers)
+        for _ in range(rng.randint(0, 2)):
+            ops.append({"op": "taint", "a": rng.randrange(nodes), "b": nodes - 1,
+                        "how": rng.choice(["add", "radd", "iadd", "sum", "fill", "fill_n", "copy", "scale"])})
     return {"property": PROPERTY, "scenario": "moments", "config": cfg, "entries": entries, "ops": ops}
 
 
@@ -416,5 +421,57 @@ def execute(plan, ctx):
                 ctx.violation("C14/invalid-after-unsupported-op", f"C14/not-invalid/{how}",
                               f"after {how} (which cannot maintain statistics) mean() = {mean!r}, variance() = {var!r}; "
                               f"expected NaN")
+            inv = Node(res, [], 1.0)
+            inv.valid = False
+            nodes[op["out"]] = inv
+        elif o == "taint":
+            a, b = nodes.get(op["a"]), nodes.get(op["b"])
+            if a is None or b is None or b.valid:
+                continue
+            how = op["how"]
+            if a.h.shape != b.h.shape:
+                continue
+            v0 = entries[0][0] if entries else float(np.asarray(b.h.bins)[0, 0])
+            if how == "add":
+                ok, res = attempt(lambda: a.h + b.h)
+            elif how == "radd":
+                ok, res = attempt(lambda: b.h + a.h)
+            elif how == "iadd":
+                def t1():
+                    c = a.h.copy()
+                    c += b.h
+                    return c
+                ok, res = attempt(t1)
+            elif how == "sum":
+                ok, res = attempt(lambda: sum([a.h, b.h, a.h]))
+            elif how == "fill":
+                def t2():
+                    c = b.h.copy()
+                    c.fill(v0)
+                    return c
+                ok, res = attempt(t2)
+            elif how == "fill_n":
+                def t3():
+                    c = b.h.copy()
+                    c.fill_n([v0, v0])
+                    return c
+                ok, res = attempt(t3)
+            elif how == "copy":
+                ok, res = attempt(b.h.copy)
+            else:
+                ok, res = attempt(lambda: b.h * 2.0)
+            ctx.ev("red", f"taint:{how}", (op["a"], op["b"]), "ok" if ok else exc_tag(res))
+            ctx.abstract("taint", how, ok)
+            if not ok:
+                ctx.probe("taint_failed:" + type(res).__name__)
+                continue
+            ctx.fault("invalidate")
+            with np.errstate(all="ignore"):
+                mean = float(res.statistics.mean())
+                var = float(res.statistics.variance())
+            if not math.isnan(mean) or not math.isnan(var):
+                ctx.violation("C14/invalid-stays-invalid", f"C14/invalid-became-numbers/{how}",
+                              f"{how} involving a histogram with invalid statistics reports mean() = {mean!r}, "
+                              f"variance() = {var!r}: numbers that ignore part of the contents instead of NaN")
     if deliveries >= 2:
         ctx.nontrivial += 1
